@@ -94,11 +94,22 @@ Theorem json_u_escape_impl_refuted :
 Proof. exact u_escape_impl_refuted_witness. Qed.
 Print Assumptions json_u_escape_impl_refuted.
 
-(* CSV: for every delimiter d and quote q (distinct, neither CR nor LF), LF or CRLF terminators, and every
+(* CSV (rc d q e dbl / wc d q e crlf dbl are the reader / writer configurations of Proofs/C17_Csv.v: dbl = true
+   is quote doubling read by the default reader, dbl = false escape-style quoting read with escape e):
+   for every delimiter d and quote q (distinct, neither CR nor LF), LF or CRLF terminators, and every
    list of non-empty records of arbitrary fields (delimiters, quotes, CR, LF inside), the csv-core reader
    automaton splits the text the writer produced back into exactly those records and fields. *)
 Theorem csv_split_quote : forall (d q e : N) (crlf : bool), d <> q -> d <> 10 -> d <> 13 -> q <> 10 -> q <> 13 ->
   forall rows : list (list (list N)), Forall (fun r => r <> []) rows ->
-  split (rc d q) (write_rows (wc d q e crlf) rows) = rows.
+  split (rc d q e true) (write_rows (wc d q e crlf true) rows) = rows.
 Proof. exact split_write_rows. Qed.
 Print Assumptions csv_split_quote.
+
+(* the same for escape-style quoting (double_quote = false) read with the same escape byte e, provided no
+   field contains e: csv-core writes e unescaped inside a quoted field, so such a field cannot round-trip *)
+Theorem csv_split_quote_escaped : forall (d q e : N) (crlf : bool), d <> q -> d <> 10 -> d <> 13 -> q <> 10 -> q <> 13 -> e <> q ->
+  forall rows : list (list (list N)), Forall (fun r => r <> []) rows ->
+  Forall (Forall (Forall (fun b => b <> e))) rows ->
+  split (rc d q e false) (write_rows (wc d q e crlf false) rows) = rows.
+Proof. exact split_write_rows_escaped. Qed.
+Print Assumptions csv_split_quote_escaped.
